@@ -241,6 +241,26 @@ def exec_scheduler(plan):
     else:
         train_st = make_backbone(backbone, task_set.get_task(0), plan)
     budget = plan["b1"] + plan["b2"] if algo == "smt" else plan["total_timesteps"]
+    warm = {"bad": None, "trained_at": None}
+    if algo == "uts" and backbone != "stub":
+        # C11.d through the scheduler: train_uts documents `exploring_starts` as the number of random exploration steps at the
+        # beginning of training, so the backbone's networks must be untouched while fewer than that many steps were executed
+        from .probes import state_hash
+
+        mods = [train_st.keywords[k] for k in ("policy", "q") if k in train_st.keywords]
+        h0 = tuple(state_hash(m) for m in mods)
+
+        def watch(kind, e, info):
+            if kind != "step" or warm["bad"] is not None:
+                return
+            k = e.n_steps
+            if k <= plan["learning_starts"]:
+                if tuple(state_hash(m) for m in mods) != h0:
+                    warm["bad"] = k
+            elif warm["trained_at"] is None and tuple(state_hash(m) for m in mods) != h0:
+                warm["trained_at"] = k
+
+        env.listeners.append(watch)
     try:
         if algo == "smt":
             from rl_blox.algorithm.smt import train_smt
@@ -275,6 +295,15 @@ def exec_scheduler(plan):
         return finish_sched(res, plan, env)
     executed = env.n_steps
     res.simt("env_steps", executed)
+    if warm["bad"] is not None:
+        res.violate("C11.d", site, f"the backbone's networks had changed after only {warm['bad']} environment steps although exploring_starts={plan['learning_starts']} "
+                                   f"({len([s for s in env.steps()[:warm['bad']] if s['term'] or s['trunc']])} episodes had ended by then)")
+    elif algo == "uts" and backbone != "stub":
+        res.probe("scheduler_warmup_frame_checked")
+        if warm["trained_at"] is not None:
+            res.probe("scheduler_training_started_after_warmup")
+            if any(s["term"] or s["trunc"] for s in env.steps()[:plan["learning_starts"]]):
+                res.probe("scheduler_warmup_spans_several_backbone_calls")
     if env.protocol:
         res.violate("C11.c", site, f"step() after an episode end without reset: {env.protocol[0]}")
     if executed > budget:
@@ -479,14 +508,14 @@ def make_plan(rng, index):
     algo = rng.choice(["smt", "active_mt", "uts"])
     n = rng.choice([1, 2, 3, 5])
     T = rng.choice([10, 20, 35, 60])
-    real = r == 9
+    real = r >= 8
     backbone = rng.choice(["ddpg", "td3", "sac"])
     if algo == "uts" and backbone == "ddpg":
         backbone = "td3"  # train_uts passes bar= to train_st, which train_ddpg does not accept (loud TypeError, not an accounting statement)
     plan = {
         "sched_kind": "scheduler", "scheduler": algo, "n_tasks": n, "backbone": backbone if real else "stub",
         "context_aware": rng.random() < 0.5, "buffer_size": rng.choice([4, 16, 1000]), "seed": rng.randrange(10**6),
-        "interval": rng.choice([1, 1, 2, 3]), "learning_starts": rng.choice([0, 3, 1000]) if not real else rng.choice([4, 1000]),
+        "interval": rng.choice([1, 1, 2, 3]), "learning_starts": rng.choice([0, 3, 1000]) if not real else rng.choice([4, 6, 9, 1000]),
         "total_timesteps": T, "b1": rng.choice([max(2, T // 2), T - 1]), "b2": rng.choice([1, 3, T // 2 + 1]),
         "solved_threshold": rng.choice([-1e9, 0.5, 1e9]), "unsolvable_threshold": rng.choice([-1e9, -0.5, 1e9]),
         "kappa": rng.choice([0.1, 0.5, 0.8]), "K": rng.choice([1, 2, 3]), "n_average": rng.choice([1, 3]),
@@ -496,4 +525,13 @@ def make_plan(rng, index):
                 "discrete": 0, "low": -1.0, "high": 1.0, "tail_len": rng.choice([1, 4]), "tail_end": rng.choice(["term", "trunc"]),
                 "space_seed": rng.randrange(2**31), "max_steps": 4 * T + 100},
     }
+    if algo == "active_mt" and rng.random() < 0.6:
+        # boundary coincidence: the budget runs out inside a scheduling round, after at least one of its episodes has finished
+        plan["interval"] = rng.choice([2, 3])
+        lens = [ep["len"] for ep in plan["env"]["script"]]
+        k = rng.choice([0, 1, 2]) * plan["interval"] + rng.randint(1, plan["interval"] - 1)
+        if k + 1 < len(lens):
+            plan["total_timesteps"] = sum(lens[:k]) + rng.randint(1, lens[k]) - (1 if lens[k] > 1 and rng.random() < 0.5 else 0)
+            plan["total_timesteps"] = max(1, plan["total_timesteps"])
+            plan["env"]["max_steps"] = 4 * plan["total_timesteps"] + 100
     return plan
